@@ -47,6 +47,8 @@ def run(chk):
         s1, s2 = int(rng.integers(0, 10 ** 6)), int(rng.integers(0, 10 ** 6))
         if rng.random() < 0.3:
             s1 = 0                                   # seed 0 is a seed like any other
+        elif rng.random() < 0.1:
+            s1 = -int(rng.integers(1, 10))           # numpy refuses negative seeds: no ranking at all - never a ranking that differs from fit to fit
         nsens = None if rng.random() < 0.4 else int(rng.integers(1, n + 1))      # the requested count (also below n_basis_modes) must not matter
         case = {"X": X.tolist(), "matrix_kind": kind, "basis": bcfg, "opt": ocfg, "seeds": [s1, s2], "n_sensors": nsens}
         try:
@@ -61,9 +63,31 @@ def run(chk):
             impl.quiet(m1.fit, X, seed=s1, quiet=True, **kws)
             a1_same = [int(i) for i in m1.all_sensors]
             r = [int(i) for i in impl.quiet(impl.make_optimizer(cfg2).fit, Bm.copy(), **kws).get_sensors()]
+            # a ranking that was handed out stays what it was: the caller keeps the very array, then the same object is fitted on
+            # OTHER data of the same width, and a second model sharing the same optimizer instance is fitted too
+            held = impl.Held()
+            held.hold("all_sensors kept from the fit with seed s1", m1.all_sensors)
+            X_other = X[::-1].copy() * 1.5 + 0.25
+            impl.quiet(m1.fit, X_other, seed=s2, quiet=True, **kws)
+            dist1 = held.disturbed()
+            from pysensors.reconstruction import SSPOR as _SSPOR
+            shared = impl.make_optimizer(cfg2)
+            ma = _SSPOR(basis=impl.make_basis(bcfg), optimizer=shared, n_sensors=nsens)
+            impl.quiet(ma.fit, X, seed=s1, quiet=True, **kws)
+            held.hold("all_sensors of the first of two models sharing one optimizer instance", ma.all_sensors)
+            a_shared = [int(i) for i in ma.all_sensors]
+            mb = _SSPOR(basis=impl.make_basis(bcfg), optimizer=shared, n_sensors=nsens)
+            impl.quiet(mb.fit, X_other, seed=s2, quiet=True, **kws)
+            dist2 = held.disturbed()
+            a_shared_after = [int(i) for i in ma.all_sensors]
         except Exception as e:
             chk.count("rejected:" + impl.exc_class(e))
             continue
+        for lab, _c in dist1 + dist2:
+            chk.violation("impl", "ranking-handed-out-overwritten", f"{lab}: the array changed when another fit ran", case)
+        if a_shared != a1 or a_shared_after != a_shared:
+            chk.violation("impl", "shared-optimizer-changes-ranking", f"a model built with a shared optimizer instance ranks {a_shared} (alone: {a1}); after the "
+                          f"second model's fit its ranking reads {a_shared_after}", case)
         mm = Bm.shape[1]
         t1 = [int(i) for i in np.random.default_rng(s1).permutation(np.array(r[mm:], dtype=int))]
         t2 = [int(i) for i in np.random.default_rng(s2).permutation(np.array(r[mm:], dtype=int))]
